@@ -18,8 +18,18 @@ Ops (first argument is always the chain name):
     c18.parse  <chain> <hexstream>       loop MsgSerializable.stream_deserialize(BytesIO) until the stream is
                                          exhausted: `pos@msg@reframe~...~eof | err:<family>@pos`
     c18.frombytes <chain> <hex>          MsgSerializable.from_bytes
+    c18.hist   <step> <step> ...         one HISTORY on live objects in one process (harness/props/c18_hist.py): the
+                                         same message object framed, edited in place (every field kind), framed again,
+                                         parsed back, the parsed object edited and re-framed; SelectParams between
+                                         steps (every chain directly after every other); one BytesIO read by several
+                                         calls with frames of other types/chains in between; two objects of one type
+                                         alive at once.  The model evaluates each step on the current field values under
+                                         the current chain.  bitcoin.* is re-imported before each history so that a
+                                         history's outcome (and its shrunk replay) depends on that history alone.
 """
 import contextlib
+import random
+import sys
 import hashlib
 import io
 import socket
@@ -27,6 +37,7 @@ import struct
 
 from ..framework import Prop, mk, guarded, ensure_repo_on_path, exc_family
 from .. import txfmt
+from . import c18_hist as H
 
 CHAINS = ('mainnet', 'testnet', 'signet', 'regtest')
 MAGIC = dict(mainnet=bytes.fromhex('f9beb4d9'), testnet=bytes.fromhex('0b110907'),
@@ -342,7 +353,10 @@ class C18(Prop):
                     'Crypto.hash256 = hashlib SHA-256 applied twice, 32 bytes long (validated by every compared frame)']
     assumptions = ['a corrupted payload is detected unless its 32-bit checksum collides (the run compares the real '
                    'checksums, so a collision would show as agreement, not as an alarm)']
-    rule = ('all 17 message types x generated field values (int edges, IPv4/IPv6, vectors 0..300, headers/tx/blocks) '
+    rule = ('HISTORIES on live objects (frame / in-place edit of every field kind / re-frame / parse back / edit the '
+            'parsed object / SelectParams tour over all 12 ordered chain pairs / one BytesIO read repeatedly / two '
+            'objects of a type alive at once), each step compared with the model on the current values; and, '
+            'statelessly: all 17 message types x generated field values (int edges, IPv4/IPv6, vectors 0..300, headers/tx/blocks) '
             'x 4 chains: to_bytes vs model; streams of 1..6 model-built frames parsed with stream_deserialize, '
             'position after every call and re-framing compared; for small frames every single-byte corruption and '
             'every truncation point; length fields 0, exact, +-1, MAX_SIZE, MAX_SIZE+1, 2^31-1, 2^31, 2^32-1 with '
@@ -399,19 +413,31 @@ class C18(Prop):
             o.addrTo = self.to_caddr(to, variant)
             o.addrFrom = None if fr is None else self.to_caddr(fr, variant >> 2)
         elif k == 'addr':
-            o.addrs = [self.to_caddr(a, variant >> (2 * (i % 3))) for i, a in enumerate(m[1])]
+            new = [self.to_caddr(a, variant >> (2 * (i % 3))) for i, a in enumerate(m[1])]
+            if variant & 64:
+                o.addrs.extend(new)      # fill the list the constructor made (a shared default would show)
+            else:
+                o.addrs = new
         elif k == 'alert':
             o.alert.vchMsg, o.alert.vchSig = m[1], m[2]
         elif k in ('inv', 'getdata', 'notfound'):
-            o.inv = []
+            if not variant & 64:
+                o.inv = []
             for (t, h) in m[1]:
                 i = self.N.CInv()
                 i.type, i.hash = t, h
                 o.inv.append(i)
         elif k in ('getblocks', 'getheaders'):
-            o.locator.nVersion, o.locator.vHave, o.hashstop = m[1], list(m[2]), m[3]
+            o.locator.nVersion, o.hashstop = m[1], m[3]
+            if variant & 64:
+                o.locator.vHave.extend(m[2])
+            else:
+                o.locator.vHave = list(m[2])
         elif k == 'headers':
-            o.headers = [txfmt.to_header(h) for h in m[1]]
+            if variant & 64:
+                o.headers.extend(txfmt.to_header(h) for h in m[1])
+            else:
+                o.headers = [txfmt.to_header(h) for h in m[1]]
         elif k == 'tx':
             o.tx = txfmt.to_tx(m[1])
         elif k == 'block':
@@ -472,7 +498,119 @@ class C18(Prop):
                     o = self.M.MsgSerializable.from_bytes(bytes.fromhex(a[1]))
                 return 'none' if o is None else show_msg(self.from_obj(o))
             return self._with_chain(a[0], lambda: guarded(f))
+        if op == 'c18.hist':
+            return self.run_hist(a)
         raise ValueError(op)
+
+    # ---- histories on live objects (harness/props/c18_hist.py) -----------------------------------------
+    def live_conv(self, kind, text):
+        if kind == 'int':
+            return int(text)
+        if kind in ('hex', 'hash'):
+            return bytes.fromhex(text)
+        if kind == 'ip':
+            ip = bytes.fromhex(text)
+            txt = (socket.inet_ntop(socket.AF_INET, ip[12:]) if ip[:12] == IPV4_COMPAT
+                   else socket.inet_ntop(socket.AF_INET6, ip))
+
+            def patch(a):
+                a.ip = txt
+                a.pchReserved = IPV4_COMPAT
+            return patch
+        if kind == 'addr':
+            return self.to_caddr(parse_addr(text), 0)
+        if kind == 'inv':
+            t, h = text.split(':')
+            i = self.N.CInv()
+            i.type, i.hash = int(t), bytes.fromhex(h)
+            return i
+        if kind == 'hdr':
+            return txfmt.to_header(txfmt.parse_header(text))
+        if kind == 'tx':
+            return txfmt.to_tx(txfmt.parse_tx(text))
+        if kind == 'block':
+            return txfmt.to_block(txfmt.parse_block(text))
+        raise ValueError(kind)
+
+    def fresh_import(self):
+        """Drop every bitcoin.* module and import the working tree again: whatever the library memoised (per class,
+        per module, in default arguments) during earlier cases of this process is gone, so a history's outcome
+        depends on that history alone — which is what makes its shrunk replay reproduce in a fresh process."""
+        for m in list(sys.modules):
+            if m == 'bitcoin' or m.startswith('bitcoin.'):
+                del sys.modules[m]
+        self.setup()
+
+    def run_hist(self, steps):
+        self.fresh_import()
+        regs, streams, out = {}, {}, []
+
+        def frame(r):
+            return regs[r].to_bytes()
+
+        self.bitcoin.SelectParams('mainnet')
+        try:
+            for st in steps:
+                parts = st.split('#')
+                hd = parts[0].split(' ')
+                if hd[0] == 'C':
+                    self.bitcoin.SelectParams(hd[1])
+                elif hd[0] == 'N':
+                    regs[hd[1]] = self.to_obj(parse_msg(parts[1]), int(parts[2]))
+                elif hd[0] == 'E':
+                    if hd[1] not in regs:
+                        continue
+                    try:
+                        H.apply_edit(regs[hd[1]], parts[1], self.live_conv)
+                    except Exception as e:  # noqa: BLE001 - an edit the live object refuses is an observation
+                        out.append('editerr:' + exc_family(e))
+                elif hd[0] == 'F':
+                    out.append(guarded(lambda: frame(hd[1]).hex()) if hd[1] in regs else 'noreg')
+                elif hd[0] == 'S':
+                    bs = []
+                    for r in hd[2:]:
+                        try:
+                            bs.append(frame(r))
+                        except Exception:  # noqa: BLE001
+                            pass
+                    streams[hd[1]] = io.BytesIO(b''.join(bs))
+                    out.append('len=%d' % sum(len(b) for b in bs))
+                elif hd[0] == 'A':
+                    f = streams.get(hd[1])
+                    try:
+                        b = frame(hd[2]) if f is not None else b''
+                    except Exception:  # noqa: BLE001
+                        b = b''
+                    if f is not None:
+                        pos = f.tell()
+                        f.seek(0, 2)
+                        f.write(b)
+                        f.seek(pos)
+                    out.append('len=%d' % len(b))
+                elif hd[0] == 'P':
+                    f = streams.get(hd[1])
+                    if f is None:
+                        out.append('nostream')
+                        continue
+                    try:
+                        with contextlib.redirect_stdout(self.devnull):
+                            o = self.M.MsgSerializable.stream_deserialize(f)
+                    except RecursionError:
+                        out.append('err:py:RecursionError@%d' % f.tell())
+                        continue
+                    except Exception as e:  # noqa: BLE001
+                        out.append('err:%s@%d' % (exc_family(e), f.tell()))
+                        continue
+                    if o is None:
+                        out.append('%d@none' % f.tell())
+                    else:
+                        regs[hd[2]] = o
+                        out.append('%d@%s' % (f.tell(), guarded(lambda: show_msg(self.from_obj(o)))))
+                else:
+                    raise ValueError('harness: bad history step ' + st[:40])
+        finally:
+            self.bitcoin.SelectParams('mainnet')
+        return '~'.join(out)
 
     def parse_stream(self, data):
         f = io.BytesIO(data)
@@ -515,6 +653,8 @@ class C18(Prop):
         Frames of in-domain messages, wrong magic, wrong checksum, truncation and impossible lengths are always
         compared strictly, entry by entry, including the stream position."""
         op = c['op']
+        if op == 'c18.hist':
+            return io == mo          # histories use in-domain values only: every step is compared strictly
         if op in ('c18.frame', 'c18.frombytes'):
             return io == mo[2:] or mo[:2] == 'O:'
         ii, mm = io.split('~'), mo.split('~')
@@ -543,6 +683,11 @@ class C18(Prop):
 
     def generate(self, rng, tier, shard, nshards):
         big = tier == 'thorough'
+        # (h) histories on live objects: state surviving across calls (see c18_hist.py); every type in every tier
+        hrng = random.Random(rng.getrandbits(64))
+        kinds = [k for i, k in enumerate(NAMES) if i % nshards == shard] if not big else list(NAMES)
+        for tag, steps in H.histories(hrng, sys.modules[__name__], kinds, big):
+            yield mk('c18.hist', *steps, tag=tag)
         # (a) framing: every type x generated values (in and out of range) x chains
         per_type = max(3, (1200 if big else 12) * 16 // nshards // 4)
         wf = []
@@ -698,12 +843,20 @@ class C18(Prop):
 
     # ---- bookkeeping ----------------------------------------------------------------------------
     def nontrivial(self, c, io):
+        if c['op'] == 'c18.hist':
+            return True
         if c['op'] == 'c18.frame':
             return ' ' in c['args'][1]
         return len(c['args'][1]) > 48
 
     def shrink_candidates(self, c):
         op, a = c['op'], c['args']
+        if op == 'c18.hist':
+            # prefixes only: dropping a step from the middle would desynchronise the recorded field values
+            for k in range(2, len(a)):
+                if a[k - 1][:1] in 'FSAP':
+                    yield mk(op, *a[:k], tag=c.get('tag', ''))
+            return
         if op == 'c18.frame':
             try:
                 m = parse_msg(a[1])
@@ -742,6 +895,8 @@ class C18(Prop):
 
     def signature(self, c, io, mo):
         op, a = c['op'], c['args']
+        if op == 'c18.hist':
+            return None
         if op == 'c18.frame':
             if a[1].startswith('headers ') and len(a[1]) > len('headers '):
                 return 'D15-headers-missing-txcount'
